@@ -631,6 +631,9 @@ class FE:
             if v[1] in ('bitcast', 'addrspacecast'): return s.val(v[2][0], v[2][1])
             if v[1] == 'ptrtoint': return '((%s)(u64)%s)' % (cty(v[3]), s.val(v[2][0], v[2][1]))
             if v[1] == 'inttoptr': return '((ptr_t)(u64)%s)' % s.val(v[2][0], v[2][1])
+        if k == 'agg' and isinstance(resolve(t), (StructTy, ArrTy)):
+            # aggregate constant used as an instruction operand (e.g. `select i1 %c, { i64, i32 } { i64 0, i32 poison }, ...`): C compound literal
+            return '((%s){ %s })' % (cty(t), ', '.join('.f%d = %s' % (i, s.val(et, ev)) for i, (et, ev) in enumerate(v[1])))
         raise Exception("val %r" % (v,))
 
 def agg_nondet(t):
